@@ -1,5 +1,5 @@
 From Coq Require Import Extraction ExtrOcamlBasic.
-From Mamba Require Import Graph.Model Graph.CtorModel Graph.CtorDecodeModel.
+From Mamba Require Import Graph.Model Graph.CtorModel Graph.CtorDecodeModel Graph.CtorSpec.
 Extraction Language OCaml.
 Extraction "model.ml" new_dense new_sparse complete_graph complete_partite path cycle star
   flower_snark hypercube folded_hypercube kneser bipartite_kneser circulant circulant_bipartite
@@ -8,4 +8,6 @@ Extraction "model.ml" new_dense new_sparse complete_graph complete_partite path 
   split_edge contract e_val add_edges sparse_of_edges d_empty
   h_new_dense h_view h_write h_new_sparse hs_view hn_write
   graph6_decode_graph sparse6_decode_graph
-  e_add_edge e_remove_edge e_add_vertex e_remove_vertex.
+  e_add_edge e_remove_edge e_add_vertex e_remove_vertex
+  complete_def path_def cycle_def star_def partite_def hypercube_def folded_def friendship_def
+  petersen_def circulant_def circbip_def flower_def rook_def ksubset disjointb binom.
